@@ -19,6 +19,8 @@ CONSTANTS Site,        \* "config" | "field" | "codec"
           RegMode,
           Faults,      \* TRUE: the input alphabet of C05 (variant found, but its own field missing / invalid)
           Walk,        \* "recursive" (what the documentation promises) | "direct" (deviant: direct subclasses only)
+          Shared,      \* TRUE: the Discriminator OBJECT of the site is one project-wide constant that an UNRELATED class (Oth) also uses as
+                       \* its Config.discriminator -- defining (compiling) Oth at any point of the history changes nothing for the site
           Nested       \* TRUE: a variant N (tag "n") that declares its OWN class-level discriminator on field "kind" (two dispatch levels)
 VARIABLES defined, registry, registry2, decoder, hist, last
 \* Site = "pair": ONE field  f: Tuple[Annotated[R, D], Annotated[R2, D]]  with two EQUAL discriminators over two
@@ -27,6 +29,7 @@ VARIABLES defined, registry, registry2, decoder, hist, last
 
 DOpts == (IF WithField THEN << <<"field", "type">> >> ELSE <<>>)
          \o << <<"include_subtypes", TRUE>> >> \o (IF Supertypes THEN << <<"include_supertypes", TRUE>> >> ELSE <<>>)
+         \o (IF Shared THEN << <<"shared", "D1">> >> ELSE <<>>)
 
 CV(t) == << <<"classvars", << <<"type", S(t)>> >> >> >>
 RootFields == << <<"v", <<"int">>, <<"req">>, <<>> >> >>
@@ -49,7 +52,8 @@ CN  == <<"dc", "N", RootFields \o <<Req("x")>>, << <<"bases", <<Root>> >> >> \o 
 KV(t) == << <<"classvars", << <<"kind", S(t)>> >> >> >>
 CN1 == <<"dc", "N1", DcFields(CN) \o <<Req("z")>>, << <<"bases", <<CN>> >> >> \o KV("k1")>>
 CN2 == <<"dc", "N2", DcFields(CN) \o <<Req("y")>>, << <<"bases", <<CN>> >> >> \o KV("k2")>>
-Candidates == IF Nested THEN {CA, CN, CN1, CN2} ELSE IF Site = "pair" THEN {CA, CB, CA2, CC2} ELSE {CA, CB, CA1, CX}
+Oth == <<"dc", "Oth", RootFields, << <<"discriminator", DOpts>>, <<"discr_field", "type">> >> >>
+Candidates == IF Shared THEN {CA, CB, Oth} ELSE IF Nested THEN {CA, CN, CN1, CN2} ELSE IF Site = "pair" THEN {CA, CB, CA2, CC2} ELSE {CA, CB, CA1, CX}
 
 HolderT == IF Site = "pair"
            THEN <<"dc", "HD", << <<"f", <<"tuple", << <<"discr", Root, DOpts>>, <<"discr", Root2, DOpts>> >> >>, <<"req">>, <<>> >> >>, <<>> >>
@@ -134,7 +138,7 @@ AcceptableNames(j) == IF WithField THEN <<>>
 Init == /\ defined = <<>> /\ registry = {} /\ registry2 = {} /\ decoder = (Site # "codec") /\ hist = <<>> /\ last = <<"none">>
 
 Define(c) == /\ ~IsDefined(defined, c[2])
-             /\ ParentName(c) = "R" \/ IsDefined(defined, ParentName(c))
+             /\ ParentName(c) \in {"R", "#none"} \/ IsDefined(defined, ParentName(c))
              /\ defined' = Append(defined, c)
              /\ hist' = Append(hist, <<"Define", c>>)
              /\ UNCHANGED <<registry, registry2, decoder>> /\ last' = <<"define">>
